@@ -86,7 +86,9 @@ package f3
 
 // ---- byte strings compared as opaque values ----
 //@ spec func bytesEq(a []byte, b []byte) bool
-//@ axiom bytesEq_is_an_equivalence: forall([]byte(a), []byte(b), []byte(c), bytesEq(a, a) && (bytesEq(a, b) ==> bytesEq(b, a)) && (bytesEq(a, b) && bytesEq(b, c) ==> bytesEq(a, c)))
+//@ axiom bytesEq_reflexive: forall([]byte(a), bytesEq(a, a))
+//@ axiom bytesEq_symmetric: forall([]byte(a), []byte(b), bytesEq(a, b) ==> bytesEq(b, a), trigger(bytesEq(a, b)))
+//@ axiom bytesEq_transitive: forall([]byte(a), []byte(b), []byte(c), bytesEq(a, b) && bytesEq(b, c) ==> bytesEq(a, c), trigger(bytesEq(a, b), bytesEq(b, c)))
 
 //@ func bytes.Equal
 //@   trusted bytes.Equal is equality of contents (an equivalence on byte strings)
@@ -188,3 +190,85 @@ package f3
 //@   trusted a bytes.Buffer holds at most 2^47 bytes
 //@   pure
 //@   ensures 0 <= result && result <= 140737488355328
+
+// ---------------------------------------------------------------------------------------------------------------
+// C15: proposals and committees. EC is seen through uninterpreted functions of its tipsets.
+//@ spec func tsKeyOf(t ec.TipSet) []byte
+//@ spec func tsEpochOf(t ec.TipSet) mathint
+//@ spec func parentOf(t ec.TipSet) ec.TipSet
+
+//@ func github.com/filecoin-project/go-f3/ec.TipSet.Key
+//@   trusted a tipset's key is a function of the tipset
+//@   pure
+//@   ensures bytesEq(result, tsKeyOf(p0))
+
+//@ func github.com/filecoin-project/go-f3/ec.TipSet.Epoch
+//@   trusted a tipset's epoch is a function of the tipset
+//@   pure
+//@   ensures result == tsEpochOf(p0)
+
+//@ func github.com/filecoin-project/go-f3/ec.Backend.GetParent
+//@   trusted EC's parent relation is a function
+//@   pure
+//@   ensures result1 == nil ==> result0 == parentOf(p2)
+
+// The chain proposed is the parent path of the head, and it is only used when that path reaches the base.
+//@ func (*gpbftInputs).collectChain
+//@   property C15
+//@   modifies auto
+//@   maypanic
+//@   loop 1
+//@     invariant len(res) >= 1 && res[0] == head && res[len(res)-1] == current
+//@     invariant forall(k, 1, len(res), res[k] == parentOf(res[k-1]), trigger(res[k]))
+//@   at return 1
+//@     before[head_behind_base_collapses_to_base] arg(0) == nil && arg(1) == nil && tsEpochOf(head) < tsEpochOf(base)
+//@   at return 2
+//@     before[divergence_collapses_to_base] arg(0) == nil && arg(1) == nil && tsEpochOf(current) < tsEpochOf(base) && !bytesEq(tsKeyOf(current), tsKeyOf(base))
+//@   at Reverse 1
+//@     before[the_walk_along_parents_reached_the_base] bytesEq(tsKeyOf(current), tsKeyOf(base)) && res[len(res)-1] == current && res[0] == head
+//@          && forall(k, 1, len(res), res[k] == parentOf(res[k-1]), trigger(res[k])) && arg(0) == res
+//@   at return 4
+//@     before[the_collected_path_without_the_base_is_returned] arg(1) == nil && dominatedBy(Reverse, 1) && len(arg(0)) == len(res) - 1
+
+//@ func (*gpbftInputs).GetProposal
+//@   property C15
+//@   requires storeInv(h.certStore) && h.manifest.Gpbft.ChainProposedLength >= 1 && h.manifest.EC.HeadLookback >= 0
+//@   modifies auto
+//@   maypanic
+//@   at GetTipset 1
+//@     before[base_is_the_head_finalized_by_the_previous_instance] 0 <= h.manifest.BootstrapEpoch && h.manifest.BootstrapEpoch <= 4611686018427387903 && 0 <= h.manifest.EC.Finality && h.manifest.EC.Finality <= 4611686018427387903 ==>
+//@          arg(1) == baseTsk && ite(instance == h.manifest.InitialInstance,
+//@          res(GetTipsetByEpoch, 1, 1) == nil && argOf(GetTipsetByEpoch, 1, 1) == h.manifest.BootstrapEpoch - h.manifest.EC.Finality,
+//@          res(Get, 1, 1) == nil && (instance >= 1 ==> argOf(Get, 1, 2) == instance - 1) && argOf(Get, 1, 0) == h.certStore
+//@             && baseTsk == res(Get, 1, 0).ECChain.TipSets[len(res(Get, 1, 0).ECChain.TipSets)-1].Key)
+//@   at collectChain 1
+//@     before[suffix_is_collected_between_that_base_and_the_ec_head] arg(2) == res(GetTipset, 1, 0) && arg(3) == res(GetHead, 1, 0) && res(GetTipset, 1, 1) == nil && res(GetHead, 1, 1) == nil
+//@   at NewChain 1
+//@     before[no_longer_than_the_configured_and_protocol_maxima] len(arg(1)) <= min(128, h.manifest.Gpbft.ChainProposedLength) - 1 && len(arg(1)) <= len(collectedChain)
+//@     before[starts_at_the_base_tipset] arg(0) == base
+//@   at getPowerTableCIDForTipset 1
+//@     before[base_tipset_is_the_finalized_head_as_ec_knows_it] base.Epoch == res(Epoch, 1)
+//@   at GetCommittee 1
+//@     before[supplemental_data_commits_to_the_next_committee] arg(2) == instance + 1 || instance == 18446744073709551615
+//@   at MakePowerTableCID 1
+//@     before[supplemental_data_commits_to_the_next_committee] arg(0) == res(GetCommittee, 1, 0).PowerTable.Entries && res(GetCommittee, 1, 1) == nil
+
+//@ func (*gpbftInputs).GetCommittee
+//@   property C15
+//@   requires storeInv(h.certStore)
+//@   modifies auto
+//@   maypanic
+//@   at GetTipset 1
+//@     before[initial_table_inside_the_lookback_window] h.manifest.InitialInstance + h.manifest.CommitteeLookback <= 18446744073709551615
+//@          && instance < h.manifest.InitialInstance + h.manifest.CommitteeLookback ==>
+//@          powerEntries == res(GetPowerTable, 1, 0) && argOf(GetPowerTable, 1, 2) == h.manifest.InitialInstance
+//@     before[beacon_tipset_is_the_power_tipset] arg(1) == powerTsk
+//@   at GetPowerTable 2
+//@     before[afterwards_table_and_beacon_at_the_head_finalized_lookback_instances_earlier] h.manifest.InitialInstance + h.manifest.CommitteeLookback <= 18446744073709551615 ==>
+//@          instance >= h.manifest.InitialInstance + h.manifest.CommitteeLookback && arg(2) == instance
+//@          && res(Get, 2, 1) == nil && argOf(Get, 2, 2) == instance - h.manifest.CommitteeLookback && argOf(Get, 2, 0) == h.certStore
+//@          && powerTsk == res(Get, 2, 0).ECChain.TipSets[len(res(Get, 2, 0).ECChain.TipSets)-1].Key
+//@   at Get 1
+//@     before[only_inside_the_lookback_window] h.manifest.InitialInstance + h.manifest.CommitteeLookback <= 18446744073709551615 ==> instance < h.manifest.InitialInstance + h.manifest.CommitteeLookback
+//@   at Add 1
+//@     before[committee_table_is_built_from_those_entries] arg(1) == powerEntries
